@@ -1229,5 +1229,5 @@ func checkLongNameInstant(c *Ctx, rule string) {
 		c.check(bad == "", rule, fmt.Sprintf("long name formats the instant the attributes carry (Format #%d)", n), p.Pos(in.Pos()), "the 32-bit mtime, or a time tested equal to it",
 			"the long name formats ModTime() as the handler or the file system reports it, while the attribute block of the same entry carries uint32(ModTime().Unix()): for a time before 1970 or after 2106 (a zero time.Time, on 386 anything after 2038) the two show different dates")
 	}
-	c.check(n >= 2, rule, "time columns of the long name", p.Pos(fn.Pos()), fmt.Sprintf("%d Format calls", n), fmt.Sprintf("only %d Format calls in runLs", n))
+	c.check(n >= 1, rule, "time columns of the long name", p.Pos(fn.Pos()), fmt.Sprintf("%d Format calls", n), "no Format call in runLs")
 }
